@@ -95,7 +95,7 @@ class Module:
         self.normal_forms = normalise_tree(self.tree)
         from .inline import inline_new_helpers
         self.inlining = inline_new_helpers(relpath, self.tree)
-        if self.inlining["inlined"]:
+        if self.inlining["inlined"] or self.inlining.get("renested"):
             for k, v in normalise_tree(self.tree).items():  # e.g. `x = E; return x` produced by splicing
                 self.normal_forms[k] += v
         from .localnames import normalise_module
